@@ -333,6 +333,28 @@ def check_triple(cls, recipes, origins, overwrite, mode, rec=None, sample=None, 
             raise Violation("C14:not-associative:conflict", f"{tag}: (a+b)+c conflict={got_conflict}, a+(b+c) conflict={got_r_conflict}", "same")
         if exp_conflict and got_conflict:
             classes.add("conflict_raises")
+        # the same with ignore_invalid=True (what harvest() can be asked to do): valid operands give the same result, an
+        # operand given as plain data is left alone as well
+        if not got_conflict and got is not None:
+            plain = json.loads(b.json(exclude_none=True)) if hasattr(b, "json") else None
+            if isinstance(plain, dict):  # (constant fields are optional on input)
+                plain = {k: v for k, v in plain.items() if not k.startswith("@")}
+            plain_before = copy.deepcopy(plain)
+            try:
+                gi = P.merge(a, b, c, allow_overwrite=overwrite, ignore_invalid=True)
+                gd = P.merge(a, plain, c, allow_overwrite=overwrite, ignore_invalid=True) if plain is not None else None
+            except ValueError as ex:
+                if isinstance(ex, ValidationError):
+                    raise Violation("C14:merge-raises:ValidationError:ignore-invalid", f"{tag}: {str(ex)[:300]}", "as without the flag")
+                gi = gd = None
+            except Exception as ex:  # noqa: BLE001
+                raise Violation(f"C14:merge-raises:{type(ex).__name__}:ignore-invalid", f"{tag}: {type(ex).__name__}: {str(ex)[:300]}",
+                                "valid operands merge with ignore_invalid=True as they do without")
+            if gi is not None and vals(gi) != vals(got):
+                raise Violation("C14:ignore-invalid-changes-result", f"{tag}: {_show(vals(gi))}", _show(vals(got)))
+            if plain != plain_before:
+                raise Violation("C14:operand-mutated:plain-data:ignore-invalid", f"{tag}: {plain_before} -> {plain}", "unchanged")
+            classes.add("ignore_invalid_checked")
         # operands untouched
         for i, x in enumerate(parts):
             if vals(x) != csnaps[i] or not _veq(x, snaps[i]):
@@ -428,6 +450,13 @@ def check_cross_class(cls, recipes, overwrite, rec=None):
                 lost = lost + ["changed:" + c for c in changed]
                 raise Violation("C14:cross-class-cast-loses-values", f"{how} of a {what} of {parent.__name__}.Partial to {cls.__name__}.Partial "
                                 f"lost {lost}: {_show(vo)} -> {_show(vals(got))}", "all provided values kept")
+        try:  # ... and the same with ignore_invalid=True
+            right_i = PC.merge(pc, obj, allow_overwrite=True, ignore_invalid=True)
+        except Exception as e:  # noqa: BLE001
+            raise Violation(f"C14:cross-class-merge-raises:{type(e).__name__}:ignore-invalid", f"{what} of {parent.__name__}.Partial as "
+                            f"operand of {cls.__name__}.Partial with ignore_invalid=True: {str(e)[:200]}", "as without the flag")
+        if vals(right_i) != vals(right):
+            raise Violation("C14:ignore-invalid-changes-result:cross-class", _show(vals(right_i)), _show(vals(right)))
         lost = sorted(k for k in vo[1] if k not in vals(right)[1])
         if lost:
             raise Violation("C14:cross-class-merge-loses-values", f"merge(child partial, {what} of the parent partial) lost the fields {lost}",
